@@ -60,6 +60,31 @@ def normStations : Stations → List Str
   | .text s => (splitComma s).map (fun p => lower (strip p))
   | .list l => l.map lower
 
+/-- an iterable of names as Python hands it over: a container whose every `iter()` starts again (list, tuple, set, dict
+keys view, numpy array) or a one-shot iterable (generator, `map`/`filter` object, iterator, open file) whose items are
+handed out exactly once -/
+inductive Iterable
+  | reiterable (l : List Str)
+  | oneShot (l : List Str)
+  deriving Repr, DecidableEq
+
+/-- one pass `[s for s in stations]`: the items, and the iterable as it is afterwards -/
+def Iterable.drain : Iterable → List Str × Iterable
+  | .reiterable l => (l, .reiterable l)
+  | .oneShot l => (l, .oneShot [])
+
+/-- the `stations` argument as the caller gives it (`Union[str, Iterable]`) -/
+inductive StationsArg
+  | text (s : Str)
+  | iter (it : Iterable)
+  deriving Repr, DecidableEq
+
+/-- the single pass over the argument at the top of `SiteInfo.get/get_history` and `ModuleBase.get/get_history`
+(`[s.lower() for s in stations]` is evaluated once; everything after works on that list) -/
+def StationsArg.once : StationsArg → Stations
+  | .text s => .text s
+  | .iter it => .list it.drain.1
+
 /-! ### Dictionaries -/
 
 /-- `d[k] = v` on an insertion-ordered dict: an existing key keeps its position -/
@@ -340,6 +365,13 @@ def siteInfoGet (src : Source) (st : Stations) (date : Option DateQ) :
 def siteInfoGetHistory (src : Source) (st : Stations) :
     Except Err (List (Str × List (Module × Val))) :=
   siteCollect (fun s => siteModules src s none true modules []) (normStations st) []
+
+/-- the public entry points on the argument as given: the iterable is consumed once, by the normalisation; the modules
+are then asked station by station with names, never with the caller's iterable -/
+def siteInfoGetArg (src : Source) (a : StationsArg) (date : Option DateQ) := siteInfoGet src a.once date
+def siteInfoGetHistoryArg (src : Source) (a : StationsArg) := siteInfoGetHistory src a.once
+def moduleGetArg (m : Module) (src : Source) (a : StationsArg) (date : Option DateQ) := moduleGet m src a.once date
+def moduleGetHistoryArg (m : Module) (src : Source) (a : StationsArg) := moduleGetHistory m src a.once
 
 /-! ### The unrepaired SSC coordinate reader, kept to state the defect (Props: `ssc_pop_breaks_second_query`)
 
